@@ -22,9 +22,10 @@ extern "C" void harness_main() {
 #ifdef SELF_LOOPS
   for (int i = 0; i < NV; ++i) dep[i][i] = sym_bool("self-dep");
 #endif
-  const int special = pick(2 * NV + 1, "special");          // 0 none, 1..NV: Dk empty, NV+1..2NV: Dk incorrect
+  const int special = pick(3 * NV + 1, "special");          // 0 none, 1..NV: Dk empty, NV+1..2NV: Dk ill-typed, 2NV+1..3NV: Dk with a character the lexer does not know
   const int emptyOne = special >= 1 && special <= NV ? special - 1 : -1;
-  const int wrongOne = special > NV ? special - NV - 1 : -1;
+  const int wrongOne = special > NV && special <= 2 * NV ? special - NV - 1 : -1;
+  const int garbledOne = special > 2 * NV ? special - 2 * NV - 1 : -1;
   RSForm src;
   std::vector<EntityUID> uid(NV + 1);
   uid[0] = src.Emplace(CstType::base);
@@ -34,6 +35,7 @@ extern "C" void harness_main() {
       def = "X1";
       for (int j = 0; j < NV; ++j) if (dep[i][j]) def += "\xE2\x88\xAA" "D" + std::to_string(j + 1);
       if (i == wrongOne) def += "\xE2\x88\xAA" "1";          // ill-typed, keeps its dependencies
+      if (i == garbledOne) def = "X1 ? " + def.substr(2);     // unknown character before the mentions: incorrect, keeps its dependencies
     }
     uid[(size_t)i + 1] = src.Emplace(CstType::term, def);
   }
